@@ -26,9 +26,12 @@ function vnum(v){return v===undefined?"0":""+v}
 function val(n){return n===0?undefined:n}
 function descStr(d){if(('value' in d)||('writable' in d))return "d"+vnum(d.value)+"."+tf(d.writable)+tf(d.enumerable)+tf(d.configurable);
  return "a"+fid(d.get,G)+"."+fid(d.set,SX)+"."+tf(d.enumerable)+tf(d.configurable)}
-function keysStr(a){var ks=Reflect.ownKeys(a),out=[];for(var i=0;i<ks.length;i++){var k=ks[i];if(typeof k!=="string"||k==="length")continue;
- out.push(k+":"+descStr(Object.getOwnPropertyDescriptor(a,k)))}return out.join(",")}
-function obsStr(a,R){return "r="+R+"|len="+a.length+"|lw="+tf(Object.getOwnPropertyDescriptor(a,"length").writable)+"|ext="+tf(Object.isExtensible(a))+"|keys="+keysStr(a)}
+function isIdx(k){return typeof k==="string"&&String(k>>>0)===k&&(k>>>0)!==4294967295}
+function keysStr(a){var ks=Reflect.ownKeys(a),out="";for(var i=0;i<ks.length;i++){var k=ks[i];if(!isIdx(k))continue;
+ out+=(out===""?"":",")+k+":"+descStr(Object.getOwnPropertyDescriptor(a,k))}return out}
+function otherStr(a){var ks=Reflect.ownKeys(a),out="";for(var i=0;i<ks.length;i++){var k=ks[i];if(isIdx(k)||k==="length")continue;out+=(out===""?"":",")+String(k)}return out}
+var TS=0;Array.prototype.toString=function(){TS++;return "[array]"};
+function obsStr(a,R){return "r="+R+"|len="+a.length+"|lw="+tf(Object.getOwnPropertyDescriptor(a,"length").writable)+"|ext="+tf(Object.isExtensible(a))+"|keys="+keysStr(a)+"|other="+otherStr(a)+"|ts="+TS}
 function mkDesc(v,w,e,c,g,s){var d={};if(v!=="-")d.value=val(+v);if(w!=="-")d.writable=(w==="T");if(e!=="-")d.enumerable=(e==="T");if(c!=="-")d.configurable=(c==="T");
  if(g!=="-")d.get=(g==="u"?undefined:G[+g]);if(s!=="-")d.set=(s==="u"?undefined:SX[+s]);return d}
 var a=[];var R="";var opn=0;
@@ -75,7 +78,11 @@ func opJS(op string) (string, error) {
 		if w[5] == "1" {
 			g = "1"
 		}
-		return fmt.Sprintf("R+=tf(Reflect.defineProperty(a,'length',mkDesc('%s','%s','%s','%s','%s','-')));", w[1], w[2], w[3], w[4], g), nil
+		vs := ""
+		if w[1] != "-" {
+			vs = "d.value=" + w[1] + ";"
+		}
+		return fmt.Sprintf("(function(){var d=mkDesc('-','%s','%s','%s','%s','-');%sR+=tf(Reflect.defineProperty(a,'length',d))})();", w[2], w[3], w[4], g, vs), nil
 	case "X":
 		return fmt.Sprintf("R+=tf(Reflect.deleteProperty(a,key(%s)));", w[1]), nil
 	case "F":
@@ -377,6 +384,13 @@ func main() {
 			return runSort(line[6:])
 		case strings.HasPrefix(line, "meth "):
 			return runMeth(line[5:])
+		case strings.HasPrefix(line, "js "):
+			vm := newVM()
+			v, err := vm.RunString(line[3:])
+			if err != nil {
+				return "ERR " + common.OneLine(err.Error())
+			}
+			return common.OneLine(v.String())
 		}
 		return "BADOP"
 	})
